@@ -274,7 +274,10 @@ func (r *Recorder) onHandler(b int, h HName, e *am.Event) (ret bool) {
 	pv, doPanic := sc.Panic[key]
 	nest := sc.Nest[key]
 	stall := sc.Stall[key]
-	// faults are one-shot
+	// scripted faults and nested mutations are one-shot
+	if len(nest) > 0 {
+		delete(sc.Nest, key)
+	}
 	if doPanic {
 		delete(sc.Panic, key)
 	}
